@@ -21,11 +21,14 @@ type mAtt struct {
 	kind  string
 	total int64 // total of the MPP / blinded record
 	res   int
+	dig   string // attemptDigest of the attempt info handed to RegisterAttempt
+	rdig  string // digest of the settle / fail info the attempt was resolved with
 }
 
 type mPay struct {
 	exists bool
 	value  int64  // amount of the payment (of its latest initiation)
+	info   string // creationDigest of the creation info of its latest initiation
 	atts   []mAtt // sorted by id
 	reason int    // -1 none
 }
@@ -103,10 +106,10 @@ func (p *mPay) expect() pproj {
 	if !p.exists {
 		return pproj{}
 	}
-	out := pproj{Exists: true, Value: p.value, Reason: p.reason, HashOK: true}
+	out := pproj{Exists: true, Value: p.value, Info: p.info, Reason: p.reason, HashOK: true}
 	var sent, fees int64
 	for _, a := range p.atts {
-		out.HTLCs = append(out.HTLCs, aproj{ID: a.id, Amt: a.amt, Total: a.amt + 7, Kind: kindString(a.kind, a.total), Res: a.res})
+		out.HTLCs = append(out.HTLCs, aproj{ID: a.id, Amt: a.amt, Total: a.amt + 7, Kind: kindString(a.kind, a.total), Res: a.res, Dig: a.dig, RDig: a.rdig})
 		if a.res == resInFlight {
 			out.NInFl++
 		}
@@ -226,10 +229,11 @@ func (m *model) apply(o op, ok bool) int {
 	p := &m.pay[o.h]
 	switch o.kind {
 	case "init":
-		*p = mPay{exists: true, value: o.val, reason: -1}
+		*p = mPay{exists: true, value: o.val, info: creationDigest(creationInfoFor(o.h, o.val)), reason: -1}
 	case "reg":
 		if p.exists && p.find(o.id) < 0 {
-			p.atts = append(p.atts, mAtt{id: o.id, amt: o.amt, kind: o.akind, total: o.total, res: resInFlight})
+			p.atts = append(p.atts, mAtt{id: o.id, amt: o.amt, kind: o.akind, total: o.total, res: resInFlight,
+				dig: attemptDigest(attemptFor(o.h, o.tok, o.amt, o.akind, o.total))})
 			sort.Slice(p.atts, func(a, b int) bool { return p.atts[a].id < p.atts[b].id })
 		}
 	case "settle", "failatt":
@@ -237,8 +241,10 @@ func (m *model) apply(o op, ok bool) int {
 			if idx := p.find(o.id); idx >= 0 && p.atts[idx].res == resInFlight {
 				if o.kind == "settle" {
 					p.atts[idx].res = resSettled
+					p.atts[idx].rdig = settleDigest(settleInfoFor(o.h, o.tok))
 				} else {
 					p.atts[idx].res = resFailed
+					p.atts[idx].rdig = failDigest(failInfoFor(o.h, o.tok))
 				}
 			}
 		}
@@ -385,6 +391,7 @@ type worldOpts struct {
 	st       *Stats
 	logf     func(string, ...any)
 	unwrapKV bool // use the raw bbolt backend (real kvdb.Batch path)
+	kvKind   string // "" = bbolt, "sqlite" = sqlite-backed kvdb (see newKVBackend)
 	query    bool // also observe QueryPayments
 	nh       int  // number of payment hashes of the space (default 2)
 	sqlCfg   string // SQL query configuration (see queryCfg)
@@ -400,7 +407,7 @@ func newWorld(o worldOpts) (*World, error) {
 	if w.st == nil {
 		w.st = newStats()
 	}
-	kv, err := newKVBackend(!o.unwrapKV)
+	kv, err := newKVBackend(!o.unwrapKV, o.kvKind)
 	if err != nil {
 		return nil, err
 	}
@@ -798,7 +805,13 @@ func (w *World) check(i int, o op, pre obsT, r result, post obsT) {
 			case h != o.h && o.h >= 0:
 				tag = "other-payment-changed"
 			}
-			v(tag+":"+o.kind, fmt.Sprintf("after %s (%s) h%d reports {%s}, ledger says {%s}", o.raw, r.class, h, got, want))
+			what := fmt.Sprintf("after %s (%s) h%d reports {%s}, ledger says {%s}", o.raw, r.class, h, got, want)
+			if dd := digestDiff(got, want); dd != "" {
+				// only persisted details differ: name the class of detail in the signature
+				tag = "persisted-details-mismatch"
+				what += "  [" + dd + "]"
+			}
+			v(tag+":"+o.kind, what)
 		}
 	}
 	// (5) the payment handed back to the caller is the stored one
@@ -929,7 +942,13 @@ func (w *World) diff(o op, sit string, r [2]result, post [2]obsT) {
 	for h := range post[0].pay {
 		a, b := post[0].pay[h], post[1].pay[h]
 		if a.String() != b.String() {
-			w.violate("diff:state:"+o.kind+":"+sit, fmt.Sprintf("after %s h%d is KV {%s} / SQL {%s}", o.raw, h, a, b))
+			what := fmt.Sprintf("after %s h%d is KV {%s} / SQL {%s}", o.raw, h, a, b)
+			tag := "diff:state:"
+			if dd := digestDiff(a, b); dd != "" {
+				tag = "diff:persisted-details:"
+				what += "  [KV = reported, SQL = expected: " + dd + "]"
+			}
+			w.violate(tag+o.kind+":"+sit, what)
 		}
 	}
 	if fmt.Sprint(post[0].inflight) != fmt.Sprint(post[1].inflight) {
